@@ -5,6 +5,7 @@
         track <tid> <parent|main> <volume> <probe> | sound <tid> <l> <r>
         setpos <tid> <pos> <tween> | setstr <tid> <f32> <tween> | lpos <lid> <pos> <tween>
         lori <lid> <quat> <tween> | cb <frames>
+        qtween <qa> <qb> <t> | vtween <va> <vb> <t> | linterp <pos> <ori> <ppos> <pori> <t>   (glam kernels)
         scene <lpos> <lquat> <epos> <min> <max> <atten|none> <strength> <l> <r>   (self-contained)
   vectors are `x,y,z` / `x,y,z,w` (f32 bits); values are `fix,<f32>` or `dist,<i0>,<i1>,<o0>,<o1>,<easing>`.
 -/
@@ -76,6 +77,20 @@ def spatialStep (st : Option (Scene Float)) (tok : List String) : Option (Option
   | ["init", ibs, sr] => do
       let ibs ← nat? ibs; let sr ← nat? sr
       pure (some (spatialScene0 ibs sr), "ok")
+  | ["qtween", a, b, t] => do
+      let a ← parseQuat a; let b ← parseQuat b; let t ← f64? t
+      let r := Quat.tweenSlerp a b t
+      pure (st, s!"{show32 r.x} {show32 r.y} {show32 r.z} {show32 r.w}")
+  | ["vtween", a, b, t] => do
+      let a ← parseVec3 a; let b ← parseVec3 b; let t ← f64? t
+      let r := Vec3.tweenLerp a b t
+      pure (st, s!"{show32 r.x} {show32 r.y} {show32 r.z}")
+  | ["linterp", p, q, pp, pq, t] => do
+      let p ← parseVec3 p; let q ← parseQuat q; let pp ← parseVec3 pp; let pq ← parseQuat pq; let t ← f32? t
+      let li : ListenerInfo Float := ⟨p, q, pp, pq⟩
+      let ip := li.interpolatedPosition t
+      let iq := li.interpolatedOrientation t
+      pure (st, s!"{show32 ip.x} {show32 ip.y} {show32 ip.z} {show32 iq.x} {show32 iq.y} {show32 iq.z} {show32 iq.w}")
   | ["scene", lp, lq, ep, mn, mx, att, str, l, r] => do
       let lp ← parseVec3 lp; let lq ← parseQuat lq; let ep ← parseVec3 ep
       let mn ← f32? mn; let mx ← f32? mx; let att ← parseAtten att; let str ← f32? str
